@@ -3,6 +3,7 @@ package core
 import (
 	"encoding/json"
 	"os"
+	"path"
 	"path/filepath"
 )
 
@@ -14,7 +15,7 @@ type Finding struct {
 	ID       string   `json:"id"`
 	Property string   `json:"property"`
 	Class    string   `json:"class"`
-	Classes  []string `json:"classes"`      // alternative to Class: any of these
+	Classes  []string `json:"classes"` // alternative to Class: any of these
 	Requires []string `json:"requires_kinds"`
 	ReqAny   []string `json:"requires_any"` // at least one of these must have fired
 	Allowed  []string `json:"allowed_kinds"`
@@ -47,14 +48,29 @@ func (fs *Findings) ByID(id string) *Finding {
 	return nil
 }
 
+// Match identifies a violation as a listed finding. The minimised run is tried
+// first; the original (unminimised) run of the same class is accepted as well,
+// because shrinking may wander to a neighbouring history of the same class.
 func (fs *Findings) Match(rf *ReplayFile) string {
+	if id := fs.match(rf.Property, rf.Class, rf.Fired); id != "" {
+		return id
+	}
+	if rf.OrigClass == rf.Class && rf.OrigFired != nil {
+		return fs.match(rf.Property, rf.Class, rf.OrigFired)
+	}
+	return ""
+}
+
+func (fs *Findings) match(property, class string, firedKinds []string) string {
+	rf := &ReplayFile{Property: property, Class: class, Fired: firedKinds}
 	for _, f := range fs.Findings {
 		if f.Status != "open" || f.Property != rf.Property {
 			continue
 		}
 		classOK := f.Class != "" && f.Class == rf.Class
 		for _, c := range f.Classes {
-			if c == rf.Class {
+			// '*' matches one path segment (path.Match semantics)
+			if ok, _ := path.Match(c, rf.Class); ok || c == rf.Class {
 				classOK = true
 			}
 		}
